@@ -621,6 +621,11 @@ func (q *checker) bcheckAssignment(lhs *a.Expr, op t.ID, rhs *a.Expr) error {
 			if xRHS.Mentions(lhs) {
 				return nil, nil
 			}
+			// After "x op= f(x)", rewriting "x == y" as "x == (y op f(x))"
+			// would use the new x where the old x is meant.
+			if rhs.Mentions(lhs) {
+				return nil, nil
+			}
 			switch op {
 			case t.IDPlusEq, t.IDMinusEq:
 				oRHS := a.NewExpr(0, op.BinaryForm(), 0, xRHS.AsNode(), nil, rhs.AsNode(), nil)
